@@ -271,6 +271,8 @@ def run_fields(P, res, payload):
             res.cls('typed value', nontrivial=True)
         if bad:
             res.violations.append({'what': bad, 'input': rec()})
+        else:
+            res.xval_path('typed ' + r.variant, replay, rec)
         if len(res.samples) < 1:
             res.samples.append({'entry': entry, 'reply': wire_of(ctx.model(), I._fields).decode('latin1'), 'result': r.variant})
         res.take_stats(ctx.stats); ctx.stats.__init__()
@@ -434,6 +436,8 @@ def run_seq(P, res, payload):
         res.cls('sequence reply', nontrivial=n > 0)
         if bad:
             res.violations.append({'what': bad, 'input': rec()})
+        else:
+            res.xval_path('sequence', replay, rec)
         if len(res.samples) < 1 and n > 0:
             res.samples.append({'entry': entry, 'reply': wire_of(ctx.model(), I._fields).decode('latin1')})
         res.take_stats(ctx.stats); ctx.stats.__init__()
